@@ -37,3 +37,7 @@ Record ctx_sites := { cf_serial : bool; cf_fork : bool; cf_spawn : bool }.
 
 (* utils.LoggerFileProxy.flush: are the buffered fragments cleared once emitted? *)
 Inductive flush_mode := FlushClears | FlushKeeps | FlushUnknown.
+
+(* ProcessRunner.wait: is a done future removed from future_to_task before it is yielded, with KeyboardInterrupt let
+   through (GenPopFirst), or are all done futures pruned only after the loop over them (GenPruneAfter)? *)
+Inductive gen_mode := PopFirst | PruneAfter | GenUnknown.
